@@ -86,7 +86,12 @@ def polarity(t, sign=1, under_mul=None, acc=None):
             sa, sb = syms(args[0]), syms(args[1])
             polarity(args[0], sign, (under_mul or set()) | sb, acc)
             polarity(args[1], sign, (under_mul or set()) | sa, acc)
-        elif op in ("as_f64", "max", "min") or op.startswith("."):
+        elif op in ("max", "min"):
+            # monotone but not linear: an input that is clamped inside the formula no longer moves the
+            # result one-for-one ("grows by exactly x"), so it is recorded with a pseudo co-factor
+            for a in args:
+                polarity(a, sign, (under_mul or set()) | {"~" + op}, acc)
+        elif op == "as_f64" or op.startswith("."):
             for a in args:
                 polarity(a, sign, under_mul, acc)
         elif op == "Neg":
@@ -162,7 +167,8 @@ def check_formula(chk, prog, for_c10=False):
     x = [a for a in main[0][2] if a != ZERO][0]
     pol = polarity(x)
     probs = []
-    for debit in ("allocated_gcs", "artificial_debt"):
+    # "grows by exactly x after adjust_debt(x)" is C10's clause; C09's premises exclude artificial adjustments
+    for debit in (("allocated_gcs", "artificial_debt") if for_c10 else ("allocated_gcs",)):
         p = pol.get(debit)
         if p != {(1, frozenset())}:
             probs.append("`%s` must enter the debt positively with unit coefficient (found %s)" % (debit, _pp(p)))
@@ -270,13 +276,8 @@ def check_helpers(chk, prog):
                     continue
                 v = field(prog, o.st, n)
                 if n in want:
-                    ok = v[0] == "app" and (v[1] in (want[n], want[n] + "Unchecked") or v[1] == ".0") and syms(v) == {n, "n"}
-                    if v[0] == "app" and v[1] == ".0":
-                        inner = v[2][0]
-                        ok = False
-                    # AddWithOverflow yields tuple projections: accept app(op,(field, n)) in either wrapping
-                    if not ok:
-                        ok = _is_op(v, want[n], n)
+                    # exactly `field (+|-) n` (checked / unchecked / saturating forms of the same operation accepted)
+                    ok = _is_op(v, want[n], n)
                     if not ok:
                         probs.append("`%s` becomes `%s`, specification says %s(%s, n)" % (n, fmt(v), want[n], n))
                 elif v != ("sym", n):
